@@ -231,6 +231,55 @@ def record_bip85(run: Run, n: int) -> list[dict[str, Any]]:
     return evs
 
 
+def record_more(run: Run, thorough: bool) -> list[dict[str, Any]]:
+    """The tweaks API at the hardened boundary, the master key as an object under every kind of version, and BIP85's applications (the language numbers of 39')."""
+    from btclib import b58, bip85
+    from btclib.bip32 import bip32
+    from btclib.bip32.bip32 import BIP32KeyData
+    from btclib.mnemonic import bip39
+
+    rnd = random.Random(run.seed + 86)
+    evs: list[dict[str, Any]] = []
+    # 1. pub_key_derivation_tweaks: unhardened paths answer IL per step, any hardened step (2^31 itself included) is refused
+    for _ in range(4 if thorough else 2):
+        xpub = BIP32KeyData.b58decode(bip32.xpub_from_xprv(bip32.derive(bip32.rootxprv_from_seed(rnd.randbytes(32)), "m/0h")))
+        for path in ([0], [1, 2, 3], [H - 1], [H], [H + 1], [0, H], [2**32 - 1], [5, H - 1, 7], []):
+            r = _x(lambda: bip32.pub_key_derivation_tweaks(xpub.key, xpub.chain_code, path))
+            evs.append({"op": "tweaks", "key": xpub.key.hex(), "chain": xpub.chain_code.hex(), "path": [nat(i) for i in path],
+                        "out": ["ok", [t.hex() for t in r]] if isinstance(r, list) else ["refused"] if r == "refused" else [str(r)]})
+        for spelled in ("m/0h", "m/0'", "m/1/0H"):
+            r = _x(lambda: bip32.pub_key_derivation_tweaks(xpub.key, xpub.chain_code, spelled))
+            idx = [H if p_ in ("0h", "0'", "0H") else int(p_) for p_ in spelled.split("/")[1:]]
+            evs.append({"op": "tweaks", "key": xpub.key.hex(), "chain": xpub.chain_code.hex(), "path": [nat(i) for i in idx],
+                        "out": ["ok", [t.hex() for t in r]] if isinstance(r, list) else ["refused"] if r == "refused" else [str(r)]})
+    # 2. rootxprv_from_seed_ (the object): private versions of both networks and SLIP132, public versions, anything else
+    for ver in ("0488ade4", "04358394", "049d7878", "045f18bc", "02575048", "0488b21e", "043587cf", "04b24746", "00000000", "ffffffff", "0488ade5"):
+        seed = rnd.randbytes(rnd.choice([16, 32, 64]))
+        r = _x(lambda: bip32.rootxprv_from_seed_(seed, bytes.fromhex(ver)))
+        evs.append({"op": "master_obj", "seed": seed.hex(), "version": ver, "out": r.serialize(check_validity=False).hex() if isinstance(r, BIP32KeyData) else str(r)})
+    # 3. BIP85 applications
+    root = bip32.rootxprv_from_seed(rnd.randbytes(32))
+    rootp = BIP32KeyData.b58decode(root).serialize().hex()
+    for lang in ("en", "ja", "ko", "es", "zh", "zh_tw", "fr", "it", "cs", "pt"):
+        for words in ((12, 24) if thorough else (12,)):
+            index = rnd.randrange(0, 50)
+            m = _x(lambda: bip85.mnemonic_from_root_key(root, words, lang, index))
+            ent = _x(lambda: bip39.entropy_from_mnemonic(m, lang)) if isinstance(m, str) and m != "refused" and not m.startswith("foreign") else m
+            out = int(ent, 2).to_bytes(len(ent) // 8, "big").hex() if isinstance(ent, str) and set(ent) <= {"0", "1"} and ent else str(ent)
+            evs.append({"op": "bip85", "app": "mnemonic", "xkey": rootp, "lang": lang, "words": words, "index": index, "take": words * 4 // 3, "out": out})
+    for index in (0, 1, 77):
+        w = _x(lambda: bip85.wif_from_root_key(root, index))
+        from btclib.to_prv_key import prv_keyinfo_from_prv_key
+
+        q = _x(lambda: prv_keyinfo_from_prv_key(w)[0]) if isinstance(w, str) and w != "refused" else w
+        evs.append({"op": "bip85", "app": "wif", "xkey": rootp, "lang": "", "words": 0, "index": index, "take": 32, "out": q.to_bytes(32, "big").hex() if isinstance(q, int) else str(q)})
+        xp = _x(lambda: bip85.xprv_from_root_key(root, index))
+        kd = _x(lambda: BIP32KeyData.b58decode(xp)) if isinstance(xp, str) and xp != "refused" else xp
+        evs.append({"op": "bip85", "app": "xprv", "xkey": rootp, "lang": "", "words": 0, "index": index, "take": 64,
+                    "out": (kd.chain_code + kd.key[1:]).hex() if isinstance(kd, BIP32KeyData) else str(kd)})
+    return evs
+
+
 def check(run: Run) -> None:
     thorough = run.tier == "thorough"
     run.rule = ("seeds of 128..512 bits x every BIP32/SLIP132 version pair, paths of depth 0..40 with indexes at 0, 1, 2, 2^31-1, 2^31, 2^31+1, 2^32-1 "
@@ -245,6 +294,7 @@ def check(run: Run) -> None:
         raise tlc.TLCFailure(f"BIP32Model violates {v.name}:\n{v.text[:700]}")
     evs = record(run, 60 if thorough else 14, 1500 if thorough else 150)
     evs += record_bip85(run, 12 if thorough else 3)
+    evs += record_more(run, thorough)
     evs += record_forced(run)
     evs += record_slip132(run, 6 if thorough else 2)
     for e in evs:
